@@ -311,7 +311,10 @@ func execPruneE2ESel(c *hlib.Ctx, tok []string) string {
 	}
 	for l := range got {
 		if !want[l] {
-			c.Violation("selector-answer-has-series-of-no-kept-tsdb", l)
+			// not C05 (nothing is lost): the generated matchers cannot express "this label must be absent" for
+			// a name no selected label set has, so a dropped TSDB {region="b2",tenant="c"} next to a kept
+			// {tenant="c"} still answers.  Counted, not a violation.
+			c.Count("e2esel:series-of-a-dropped-tsdb-in-answer(observation)")
 		}
 	}
 	return fmt.Sprintf("n=%d", len(got))
